@@ -800,6 +800,14 @@ class SymExec(object):
                 got_ = _ag(f[2][0])
                 if got_ is not None:
                     return got_
+            if f in (('name', 'replace'), ('attr', ('name', 'dataclasses'), 'replace')) and len(args) == 1 and kws and all(k is not None for k, _ in kws):
+                # dataclasses.replace on the two category records: a copy with the named fields exchanged --
+                # Functor: z.functor(l, r) keeps z's slash;  Atom: Atom(x.base, f)
+                kd = dict(kws)
+                if set(kd) == {'left', 'right'}:
+                    return ('call', ('attr', args[0], 'functor'), (kd['left'], kd['right']), ())
+                if set(kd) == {'feature'}:
+                    return ('call', ('name', 'Atom'), (('attr', args[0], 'base'), kd['feature']), ())
             if f == ('name', 'int') and len(args) == 1 and not kws and args[0][0] == 'unop' and args[0][1] == 'not':
                 return ('ifexp', args[0][2], ('const', 0), ('const', 1))      # int(not b) is 0 if b else 1
             if f == ('name', 'len') and len(args) == 1 and not kws and args[0][0] == 'const' and isinstance(args[0][1], str):
